@@ -256,6 +256,8 @@ def scenario_to_config(sc):
                 q.append({"op": "get1", "b": b})
             elif op in ("write", "wait", "shutdown", "cancel", "refresh"):
                 q.append({"op": op, "n": 2} if o.get("chunks") else {"op": op})
+            elif op == "closerefresh":
+                return None   # a closed refresh channel (refreshes without end): not in the specification
             elif op == "delayend":
                 q.append({"op": "nop"})     # the render delay only swaps the writer: no gate is involved
             else:
